@@ -135,7 +135,8 @@ impl Matcher {
                 } else {
                     first_bonus = bonus;
                 }
-                score += SCORE_MATCH + bonus;
+                // saturate instead of wrapping around for very long needles
+                score = score.saturating_add(SCORE_MATCH + bonus);
                 in_gap = false;
                 consecutive += 1;
                 if let Some(&next) = needle_iter.next() {
@@ -155,11 +156,13 @@ impl Matcher {
         }
         if self.config.prefer_prefix {
             if start != 0 {
-                let penalty = PENALTY_GAP_START
-                    + PENALTY_GAP_START * (start - 1).min(u16::MAX as usize) as u16;
-                score += MAX_PREFIX_BONUS.saturating_sub(penalty / PREFIX_BONUS_SCALE);
+                let penalty = PENALTY_GAP_START.saturating_add(
+                    PENALTY_GAP_START.saturating_mul((start - 1).min(u16::MAX as usize) as u16),
+                );
+                score = score
+                    .saturating_add(MAX_PREFIX_BONUS.saturating_sub(penalty / PREFIX_BONUS_SCALE));
             } else {
-                score += MAX_PREFIX_BONUS;
+                score = score.saturating_add(MAX_PREFIX_BONUS);
             }
         }
         score
